@@ -199,6 +199,25 @@ func (e *Engine) pureApp(st *State, fn *ssa.Function, args []Val) Val {
 	}
 	v := term(t, rt)
 	e.pureRangeAxiom(name, sorts, rt)
+	// pure function with a contract (and not the unit being proved itself): its postconditions as axioms
+	if e.unit == nil || e.unit.Fn != fn {
+		c := e.P.contracts[e.P.funcKey(fn)]
+		if c == nil {
+			c = e.P.libContracts[stripTypeArgs(fn.String())]
+		}
+		if c != nil && c.Pure && len(c.Ensures) > 0 {
+			var ptypes []types.Type
+			var pnames []string
+			for _, p := range fn.Params {
+				ptypes = append(ptypes, p.Type())
+				pnames = append(pnames, p.Name())
+			}
+			if c.Kind == "lib" {
+				pnames = e.paramNames(c, fn, fn.Signature)
+			}
+			e.pureContractAxioms(fn, c, name, sorts, ptypes, pnames, rt)
+		}
+	}
 	return v
 }
 
